@@ -166,7 +166,7 @@ def _uses_removedirs(ctx, node):
                for m in ast.walk(node))
 
 
-@rule('H4', floor=3, title='check() compares rows with files and counters with rows, inside one transaction')
+@rule('H4', floor=6, title='check() compares rows with files and counters with rows, inside one transaction')
 def h4(ctx):
     f = ctx.method('Cache', 'check')
     have = {'integrity': False, 'rows-vs-files': False, 'files-vs-rows': False, 'count': False, 'size': False}
@@ -193,6 +193,47 @@ def h4(ctx):
                 in_txn = in_txn and bool(e.txn)
     obs = [Ob('H4', 'Cache.check/' + k, v, 'check() no longer performs the %s comparison' % k, f.loc())
            for k, v in sorted(have.items())]
+    # the directory scans happen on every path (not only when some row names a file)
+    always, wit = True, None
+    same_ctor, wit2 = True, None
+    npaths = 0
+    for p in ctx.paths(f, 'default')[:600]:
+        if p.kind not in ('return', 'next'):
+            continue
+        npaths += 1
+        walks = [e for e in p.trace if e.kind == 'EXT' and e.d['name'] == 'os.walk' and e.fn is f]
+        if len(walks) < 2:
+            always = False
+            wit = wit or fmt_trace(p.trace)
+        for e in walks:
+            a = e.d['args'][0] if e.d['args'] else None
+            if not (a is not None and a.k == 'selfattr' and a.a[1] == '_directory'):
+                always = False
+                wit = wit or fmt_trace(p.trace)
+        # known files and walked files are both absolute paths built by os.path.join(<root>, <relative name>)
+        for e in p.trace:
+            if e.kind == 'MCALL' and e.d['name'] == 'add' and e.fn is f and e.d['args']:
+                a = e.d['args'][0]
+                good = a.k == 'ext' and a.a[0] == 'os.path.join'
+                if good:
+                    je = p.trace[a.a[1]]
+                    ja = je.d['args']
+                    good = len(ja) == 2 and ja[0].k == 'selfattr' and ja[0].a[1] == '_directory' and \
+                        ja[1].k == 'col' and ja[1].a[1] == 'filename'
+                if not good:
+                    same_ctor = False
+                    wit2 = wit2 or fmt_trace(p.trace)
+    src = ast.unparse(f.node)
+    if any(isinstance(n, ast.Subscript) and isinstance(n.slice, ast.Slice) and 'dirpath' in ast.unparse(n.value)
+           for n in ast.walk(f.node)):
+        same_ctor = False
+    obs.append(Ob('H4', 'Cache.check/scans-on-every-path', always and npaths > 0,
+                  'the two directory scans (unknown files, empty directories) are skipped on some path, e.g. when no '
+                  'row names a file: debris in an inline-only cache or shard is never reported or removed', f.loc(), wit))
+    obs.append(Ob('H4', 'Cache.check/paths-compared-as-joined', same_ctor and npaths > 0,
+                  'known files and walked files are not both compared as os.path.join(root, relative name): string '
+                  'slicing of the walked directory (or relative names) breaks when the cache directory was given with '
+                  'a trailing separator, and every value file is reported unknown and removed', f.loc(), wit2))
     obs.append(Ob('H4', 'Cache.check/one-transaction', in_txn, 'the comparisons of check() do not run inside one '
                   'transaction: concurrent writers make it report phantom inconsistencies (and fix them)', f.loc()))
     return obs
